@@ -289,7 +289,7 @@ Definition ctx_select_map (E : cenv) (s : seg) : C unit :=
           else c_ret tt);
     doc_ reset_counter (l "/ISA_LOOP/GS_LOOP") (l "/ISA_LOOP/GS_LOOP/GS");
     doc st <- c_get;
-    doc mp <- c_local (cs_cur_map st);
+    doc mp <- (match cs_cur_map st with Some mp => c_ret mp | None => c_raise EngineError end);   (* fix 7fa1c38: "Map not found" *)
     doc r <- c_lift (getnode mp "/ISA_LOOP/GS_LOOP/GS");
     c_mod (fun st => set_mnode st (mn_of mp r))
   else if sid_is s "BHT" then
@@ -301,8 +301,9 @@ Definition ctx_select_map (E : cenv) (s : seg) : C unit :=
       doc fic <- c_local (cs_fic st);
       let new := index_filename idx icvn vriic fic tspc in
       if negb (ostr_eqb (cs_file st) new) then
-        doc _ <- ctx_switch_map E new;
-        c_raise AttributeError                                  (* 852: self._apply_loop_count does not exist *)
+        doc mp <- ctx_switch_map E new;                         (* fix 7fa1c38: the call of _apply_loop_count is gone *)
+        doc r <- c_lift (getnode mp "/ISA_LOOP/GS_LOOP/ST_LOOP/HEADER/BHT");
+        c_mod (fun st => set_mnode st (mn_of mp r))
       else c_ret tt
     else c_ret tt
   else c_ret tt.
@@ -397,7 +398,8 @@ Definition ctx_step (E : cenv) (s : seg) : C unit :=
 (* `for seg in self.src` *)
 Fixpoint ctx_run_lines (E : cenv) (lines : list str) : C unit :=
   match lines with
-  | [] => c_ret tt
+  | [] => doc st <- c_get;                                      (* fix 7fa1c38: the tree still open at the end is yielded *)
+          (match cs_tree st with Some t => c_yield t | None => c_ret tt end)
   | ln :: rest =>
       doc st <- c_get;
       doc r <- c_lift (reader_line_opt (de_d (ce_d E)) (cs_x st) ln);
